@@ -76,10 +76,14 @@ func NewSpecValidator(schema *spec.Schema, formats strfmt.Registry) *SpecValidat
 		o(schemaOptions)
 	}
 
+	defaultOptsMutex.Lock()
+	options := defaultOpts // SetContinueOnErrors writes it under this mutex
+	defaultOptsMutex.Unlock()
+
 	return &SpecValidator{
 		schema:        schema,
 		KnownFormats:  formats,
-		Options:       defaultOpts,
+		Options:       options,
 		schemaOptions: schemaOptions,
 	}
 }
